@@ -182,6 +182,9 @@ var c12Atoms = []c12Atom{
 	{q: &model.Q{Op: "lit", Field: "t1", Pat: "p q"}, vars: []string{"t1:p", "t1:q"}, conj: true},
 	{q: &model.Q{Op: "lit", Field: "mr", Pat: "u-v"}, vars: []string{"mr:u", "mr:v"}, conj: true},
 	{q: &model.Q{Op: "lit", Field: "mt", Pat: "r s"}, vars: []string{"mt:r", "mt:s"}, conj: true},
+	// word characters are letters and numbers in the Unicode sense (No/Nl included), in both languages as in the indexer
+	{q: &model.Q{Op: "lit", Field: "t1", Pat: "w ½ z"}, vars: []string{"t1:w", "t1:½", "t1:z"}, conj: true},
+	{q: &model.Q{Op: "lit", Field: "t1", Pat: "m² Ⅳn"}, vars: []string{"t1:m²", "t1:ⅳn"}, conj: true},
 }
 
 type c12Tree struct {
